@@ -120,6 +120,7 @@ func main() {
 
 	// ---- problemFromError
 	genProblemFromError(o, mustFunc(checksPkg, "", "problemFromError"))
+	genGroupConstruction(o, loadPkg(filepath.Join(*srcDir, "internal", "config")))
 
 	o.write(*outPath, *jsonPath)
 }
@@ -533,4 +534,89 @@ func genProblemFromError(o *out, fd *ast.FuncDecl) {
 		fatal("problemFromError: Summary literal not found")
 	}
 	o.def("problem_from_error_summary", "string", cs(summary))
+}
+
+// genGroupConstruction: config.newFailoverGroup — the order in which the upstream list is built (the `uri` first, then
+// the `failover` entries in the order they were written) and the expression handed over as strictErrors.
+// Recognised shape:
+//
+//	upstreams := []*promapi.Prometheus{ promapi.NewPrometheus(_, <A>, …) }
+//	for _, u := range <B> { upstreams = append(upstreams, promapi.NewPrometheus(_, u, …)) }
+//	return promapi.NewFailoverGroup(_, _, upstreams, <S>, …)
+//
+// any other statement that touches `upstreams` (sorting, compacting, reversing …) is rejected.
+func genGroupConstruction(o *out, p *pkgFiles) {
+	fd := findFunc(p, "", "newFailoverGroup")
+	if fd == nil {
+		fatal("config.newFailoverGroup not found")
+	}
+	var order []string
+	strict := ""
+	mentions := func(n ast.Node) bool {
+		found := false
+		ast.Inspect(n, func(c ast.Node) bool {
+			if id, ok := c.(*ast.Ident); ok && id.Name == "upstreams" {
+				found = true
+			}
+			return true
+		})
+		return found
+	}
+	newProm := func(e ast.Expr) *ast.CallExpr {
+		ce, ok := e.(*ast.CallExpr)
+		if !ok || src(ce.Fun) != "promapi.NewPrometheus" || len(ce.Args) < 2 {
+			return nil
+		}
+		return ce
+	}
+	for _, st := range fd.Body.List {
+		if !mentions(st) {
+			continue
+		}
+		switch s := st.(type) {
+		case *ast.AssignStmt:
+			cl, ok := s.Rhs[0].(*ast.CompositeLit)
+			if !ok || len(s.Lhs) != 1 || src(s.Lhs[0]) != "upstreams" || len(order) > 0 {
+				fatal("newFailoverGroup: unrecognised statement on the upstream list at %s: %s", pos(s), oneLine(src(s)))
+			}
+			for _, el := range cl.Elts {
+				ce := newProm(el)
+				if ce == nil {
+					fatal("newFailoverGroup: upstream list element at %s is not promapi.NewPrometheus(…)", pos(el))
+				}
+				order = append(order, oneLine(src(ce.Args[1])))
+			}
+		case *ast.RangeStmt:
+			v, ok := s.Value.(*ast.Ident)
+			if !ok || len(s.Body.List) != 1 {
+				fatal("newFailoverGroup: unrecognised loop over the failover list at %s", pos(s))
+			}
+			as, ok := s.Body.List[0].(*ast.AssignStmt)
+			if !ok || len(as.Lhs) != 1 || src(as.Lhs[0]) != "upstreams" {
+				fatal("newFailoverGroup: unrecognised loop body at %s", pos(s))
+			}
+			ap, ok := as.Rhs[0].(*ast.CallExpr)
+			if !ok || src(ap.Fun) != "append" || len(ap.Args) != 2 || src(ap.Args[0]) != "upstreams" {
+				fatal("newFailoverGroup: the failover loop does not append at the end (%s)", pos(as))
+			}
+			ce := newProm(ap.Args[1])
+			if ce == nil || src(ce.Args[1]) != v.Name {
+				fatal("newFailoverGroup: the failover loop does not add the loop variable as the upstream URI (%s)", pos(as))
+			}
+			order = append(order, oneLine(src(s.X))+"[]")
+		case *ast.ReturnStmt:
+			ce, ok := s.Results[0].(*ast.CallExpr)
+			if !ok || src(ce.Fun) != "promapi.NewFailoverGroup" || len(ce.Args) < 4 || src(ce.Args[2]) != "upstreams" {
+				fatal("newFailoverGroup: unrecognised return at %s", pos(s))
+			}
+			strict = oneLine(src(ce.Args[3]))
+		default:
+			fatal("newFailoverGroup: unrecognised statement on the upstream list at %s: %s", pos(st), oneLine(src(st)))
+		}
+	}
+	if len(order) == 0 || strict == "" {
+		fatal("newFailoverGroup: shape not recognised (order %v, strict %q)", order, strict)
+	}
+	o.def("group_upstream_order", "list string", cstrs(order))
+	o.def("group_strict_arg", "string", cs(strict))
 }
